@@ -526,22 +526,24 @@ Fixpoint emit_scripts (optimize : bool) (l : list (text * option (list stmt))) :
   | (n, Some b) :: r => bind_i (emit_script n false optimize b) (fun x => bind_i (emit_scripts optimize r) (fun y => Ok (x ++ y)))
   end.
 
+Fixpoint emit_tables (optimize : bool) (l : list tablems) : res (list instr) :=
+  match l with
+  | [] => Ok []
+  | tb :: r =>
+      let head := [ILabel (tmName tb) false] ++
+                  flat_map (fun e => marker (tline (teCond e)) ++ [ILine (tab ++ t "map_script_2 " ++ teCondLit e ++ t ", " ++ teCmp e ++ t ", " ++ teName e)]) (tmEntries tb) ++
+                  [ILine (tab ++ t ".2byte 0"); IBlank] in
+      bind_i (emit_scripts optimize (map (fun e => (teName e, teScript e)) (tmEntries tb))) (fun x =>
+      bind_i (emit_tables optimize r) (fun y => Ok (head ++ x ++ y)))
+  end.
+
 Definition emit_mapscripts (optimize : bool) (name : text) (glob : bool) (plain : list mapscript) (tables : list tablems) : res (list instr) :=
   let hdr := [ILabel name glob] ++
              flat_map (fun m => marker (tline (msType m)) ++ [ILine (tab ++ t "map_script " ++ tlit (msType m) ++ t ", " ++ msName m)]) plain ++
              flat_map (fun tb => marker (tline (tmType tb)) ++ [ILine (tab ++ t "map_script " ++ tlit (tmType tb) ++ t ", " ++ tmName tb)]) tables ++
              [ILine (tab ++ t ".byte 0"); IBlank] in
   bind_i (emit_scripts optimize (map (fun m => (msName m, msScript m)) plain)) (fun inl =>
-  bind_i ((fix tabs (l : list tablems) : res (list instr) :=
-     match l with
-     | [] => Ok []
-     | tb :: r =>
-         let head := [ILabel (tmName tb) false] ++
-                     flat_map (fun e => marker (tline (teCond e)) ++ [ILine (tab ++ t "map_script_2 " ++ teCondLit e ++ t ", " ++ teCmp e ++ t ", " ++ teName e)]) (tmEntries tb) ++
-                     [ILine (tab ++ t ".2byte 0"); IBlank] in
-         bind_i (emit_scripts optimize (map (fun e => (teName e, teScript e)) (tmEntries tb))) (fun x =>
-         bind_i (tabs r) (fun y => Ok (head ++ x ++ y)))
-     end) tables) (fun tt => Ok (hdr ++ inl ++ tt))).
+  bind_i (emit_tables optimize tables) (fun tt => Ok (hdr ++ inl ++ tt))).
 
 Definition emit_top (optimize : bool) (tp : top) : option (res (list instr)) :=
   match tp with
